@@ -1412,6 +1412,78 @@ def merge(ctx, results):
             ctx.case(["history", hs["sub_seed"], hs["ops"]], nontrivial=nt, sample=hs)
 
 
+def probe_hashseeds(ctx):
+    """Directed probe for hidden dependence on the per-process string hash seed (iteration order of sets/dicts of names):
+    the same program-driven run in fresh interpreters with different PYTHONHASHSEED values must be bit-identical.
+    Uses library projects whose programs target several compartments x populations (summation order matters in the last bit)."""
+    names = ["tb", "hiv"] if ctx.quick else ["tb", "hiv", "tb_simple", "hypertension", "diabetes"]
+    seeds = [1, 2, 3] if ctx.quick else [1, 2, 3, 5, 8, 13]
+    procs = []
+    for name in names:
+        try:
+            P = demo_master(name)
+        except Exception as e:
+            ctx.notes.append(f"hashseed probe: demo {name} unavailable: {e!r}"[:200])
+            continue
+        s0 = float(P.settings.sim_start)
+        desc = {"kind": "demo", "name": name, "settings": [s0, s0 + 3, 0.5], "meta_y": {}, "prog": {"instr": {"start": s0 + 0.5, "stop": None, "alloc_scale": {}}}}
+        for hs in seeds:
+            procs.append((name, hs, launch_child([{"desc": desc, "prog": True, "edit": None}], hs, 1)))
+    first = {}
+    for name, hs, pr in procs:
+        out, err = collect_child(pr)
+        if err:
+            ctx.brk("correspondence", f"hash-seed probe: fresh-process run of {name} failed: {err}"[:400])
+            continue
+        dg = tuple(tuple(x) for x in out["obs"][0])
+        ctx.count("probe.hashseed")
+        ctx.case({"probe": "hashseed", "demo": name, "hashseed": hs}, nontrivial=True)
+        if name not in first:
+            first[name] = (hs, dict(dg))
+        else:
+            hs0, d0 = first[name]
+            diff = [k for k, v in dict(dg).items() if d0.get(k) != v]
+            if diff:
+                ctx.violation({"api": "run_model", "case": "depends-on-PYTHONHASHSEED"},
+                              f"{name} with programs: fresh interpreters with PYTHONHASHSEED={hs0} and {hs} give different outputs (first differing arrays: {diff[:4]})",
+                              {"probe": "hashseed", "demo": name, "seeds": [hs0, hs], "script": f"for s in ({hs0},{hs}): run `PYTHONHASHSEED=s python -c \"import atomica as at; P=at.demo('{name}',do_run=False); r=P.run_sim(P.parsets[0],P.progsets[0],at.ProgramInstructions(start_year=P.settings.sim_start+0.5)); print(repr(r.model.pops[0].comps[0].vals[-1]))\"` and compare"})
+
+
+def probe_partial_initialization(ctx):
+    """Directed probe: a ParameterSet carrying an explicit Initialization that lists only SOME compartments (the rest default to 0).
+    Running a simulation must leave that parameter set exactly as it was (inputs are left unchanged)."""
+    import atomica as at
+    import sciris as sc
+
+    for name in (["udt", "tb_simple"] if ctx.quick else ["udt", "tb_simple", "usdt", "hypertension", "hiv"]):
+        try:
+            P = sc.dcp(demo_master(name))
+            s0 = float(P.settings.sim_start)
+            P.settings.update_time_vector(start=s0, end=s0 + 3, dt=0.5)
+            res = at.run_model(P.settings, P.framework, P.parsets[0])
+            ps = sc.dcp(P.parsets[0])
+            ps.set_initialization(res, s0 + 1.0)
+            keys = list(ps.initialization.values.keys())
+            drop = [k for i, k in enumerate(keys) if i % 3 == 1]   # leave out a third of the entries
+            for k in drop:
+                del ps.initialization.values[k]
+            st = at.ProjectSettings(s0 + 1.0, s0 + 3, 0.5)
+            before = snapshot(ps)
+            at.run_model(st, P.framework, ps)
+            at.run_model(st, P.framework, ps)
+            after = snapshot(ps)
+        except Exception as e:
+            ctx.notes.append(f"partial-initialization probe on {name}: {e!r}"[:200])
+            continue
+        ctx.count("probe.partial_initialization")
+        ctx.case({"probe": "partial-initialization", "demo": name}, nontrivial=True)
+        d = first_diff(before, after)
+        if before != after:
+            ctx.violation({"api": "run_model", "case": "parset-with-partial-initialization-modified"},
+                          f"{name}: running a simulation changed the ParameterSet passed in (explicit Initialization listing {len(keys) - len(drop)} of {len(keys)} compartments): first difference {str(d)[:300]}",
+                          {"probe": "partial-initialization", "demo": name, "dropped": [list(k) for k in drop]})
+
+
 def run(ctx):
     src0 = source_digest()
     n = ctx.n(30, 600)
@@ -1426,6 +1498,8 @@ def run(ctx):
         with mp.get_context("fork").Pool(nproc) as pool:
             for res in pool.imap_unordered(run_histories, chunks):
                 merge(ctx, res)
+    probe_hashseeds(ctx)
+    probe_partial_initialization(ctx)
     if source_digest() != src0 or any(str(x).startswith("SOURCE-CHANGED") for x in ctx.notes):
         raise RuntimeError("the atomica sources changed while the check was running; observations of different code are not comparable -- run the check again")
     ctx.exhaustive = False
